@@ -1,0 +1,49 @@
+//go:build verif
+
+// Contracts for the configuration factory (C20). Compiled only under the build tag "verif".
+
+package factory
+
+import "github.com/asaskevich/govalidator"
+
+func verif_forall[T any](f func(T) bool) bool { return true }
+
+var _ = govalidator.TagMap
+
+// SpecValidated: what the `valid:"..."` struct tags guarantee about presence - derived by govc from the
+// tags in the current source on every run (required pointer members are non-nil, recursively; required
+// strings and lists are non-empty); all other validators are dropped (a weaker predicate).
+func SpecValidated(c *Config) bool { return verif_validated(c) }
+func verif_validated(c *Config) bool { return true }
+
+func specIsErrors(err error) bool {
+	_, ok := err.(govalidator.Errors)
+	return ok
+}
+
+// specServiceName: the service names the CHF knows
+func specServiceName(s string) bool {
+	return s == "nchf-convergedcharging" || s == "nchf-offlineonlycharging" || s == "nchf-spendinglimitcontrol"
+}
+
+// Config.Validate runs govalidator.ValidateStruct (reflection over the struct tags, outside the
+// verified subset). Assumed: when it reports no error, the presence requirements of the tags hold.
+//@ func (*Config).Validate [C20]
+//@   trusted
+//@   ensures result1 == nil ==> SpecValidated(c)
+
+// Configuration.validate rejects a list with an unknown service name (checked against the code); the
+// rest is govalidator.
+//@ func (*Configuration).validate [C20]
+//@   requires c != nil && govalidator.TagMap != nil
+//@   ensures (!forall i int :: 0 <= i && i < len(c.ServiceNameList) ==> specServiceName(c.ServiceNameList[i])) ==> result1 != nil
+//@   modifies mapof(govalidator.TagMap)
+//@   loop 0: invariant 0 <= ITER && ITER <= len(c.ServiceNameList)
+//@   loop 0: invariant forall i int :: 0 <= i && i < ITER ==> specServiceName(c.ServiceNameList[i])
+
+// appendInvalid keeps "no error" and "error" apart.
+//@ func appendInvalid [C20]
+//@   requires err == nil || specIsErrors(err)
+//@   ensures (err == nil) == (result == nil)
+//@   linear errs
+//@   loop 0: invariant 0 <= ITER
